@@ -110,6 +110,9 @@ pub struct View {
     pub apply_limit: u64,
     pub read_states_len: usize,
     pub pending_reads: usize,
+    /// Entry-carrying MsgAppend queued in `raft.msgs` per destination id (4 bits each, ids < 16,
+    /// saturating): also sees an entry-less append turned into an entry-carrying one by batching.
+    pub queued_appends: u64,
     pub conf: Rc<Conf>,
 }
 
@@ -117,6 +120,16 @@ pub fn view_of(raw: &Raw, conf: &Rc<Conf>) -> View {
     let r = &raw.raft;
     let log = &r.raft_log;
     let last_index = log.last_index();
+    let mut queued_appends = 0u64;
+    for m in r.msgs.iter() {
+        if m.get_msg_type() == MessageType::MsgAppend && !m.entries.is_empty() && m.to < 16 {
+            let sh = m.to * 4;
+            let cur = (queued_appends >> sh) & 0xf;
+            if cur < 15 {
+                queued_appends += 1 << sh;
+            }
+        }
+    }
     View {
         term: r.term,
         vote: r.vote,
@@ -145,6 +158,7 @@ pub fn view_of(raw: &Raw, conf: &Rc<Conf>) -> View {
         apply_limit: log.max_apply_unpersisted_log_limit,
         read_states_len: r.read_states.len(),
         pending_reads: r.read_only.read_index_queue.len(),
+        queued_appends,
         conf: conf.clone(),
     }
 }
